@@ -88,15 +88,27 @@ Theorem C04_composite_shapes_agree :
 Proof. exact (conj sce_dense_agree (conj sce_sparse_agree (conj split_agree batch_split_agree))). Qed.
 Print Assumptions C04_composite_shapes_agree.
 
+(* the guard `n == 0 || total % n != 0` that the Node functions split / batch::split evaluate
+   before constructing the operator rejects exactly what the Tensor composite and FWD_SHAPE reject *)
+Theorem C04_split_guards_agree :
+  (forall x dim n, wf x -> u32 dim -> u32 n ->
+     (node_split_guard x dim n = true <-> split_tensor x dim n = None) /\
+     (node_split_guard x dim n = true <-> split x dim n = None)) /\
+  (forall x n, wf x -> u32 n ->
+     (node_batch_split_guard x n = true <-> batch_split_tensor x n = None) /\
+     (node_batch_split_guard x n = true <-> batch_split x n = None)).
+Proof. exact (conj split_guard_agree batch_split_guard_agree). Qed.
+Print Assumptions C04_split_guards_agree.
+
 (* ---- non-vacuity *)
 Local Open Scope string_scope.
 
-(* the tables are populated: 72 operator classes, 83 rows (76 operator rows of which 4 special,
-   2 throw rows, 5 composite rows), 78 model rows *)
+(* the tables are populated: 72 operator classes, 85 rows (76 operator rows of which 4 special,
+   4 throw rows, 5 composite rows), 80 model rows *)
 Example C04_nonvacuous_tables :
   (List.length op_classes, List.length R, List.length (filter is_op_row R), List.length (filter is_special R),
    List.length (filter is_throw_row R), List.length (filter is_composite_row R), List.length api_table)
-  = (72, 83, 76, 4, 2, 5, 78).
+  = (72, 85, 76, 4, 4, 5, 80).
 Proof. vm_compute. reflexivity. Qed.
 
 (* the scalar-L row of subtract: the call site passes (b, a), FORWARD(SubtractScalarL) computes
@@ -139,5 +151,7 @@ Example C04_nonvacuous_composite :
   (sce_dense_tensor (mkS [2;3] 2 6) (mkS [2;3] 1 6) 0 = Some (mkS [1;3] 2 3))%N /\
   (sce_dense_tensor (mkS [3] 1 3) (mkS [] 1 1) 0 = None /\ sce (mkS [3] 1 3) (mkS [] 1 1) 0 = None)%N /\
   (split_tensor (mkS [3] 1 3) 8 1 = Some [mkS [3] 1 3] /\ split (mkS [3] 1 3) 8 1 = Some (mkS [3] 1 3))%N /\
-  (split_tensor (mkS [4;2] 1 8) 0 2 = Some [mkS [2;2] 1 4; mkS [2;2] 1 4])%N.
+  (split_tensor (mkS [4;2] 1 8) 0 2 = Some [mkS [2;2] 1 4; mkS [2;2] 1 4])%N /\
+  (node_split_guard (mkS [4;2] 1 8) 0 2 = false /\ node_split_guard (mkS [4;2] 1 8) 0 3 = true /\
+   node_split_guard (mkS [4;2] 1 8) 0 2147483648 = true /\ split_tensor (mkS [4;2] 1 8) 0 3 = None)%N.
 Proof. vm_compute. repeat split; reflexivity. Qed.
